@@ -1081,6 +1081,19 @@ func (c *FnVC) allComps() []string {
 
 // applySplits replaces every obligation by one per case of the contract's split conditions.
 func (c *FnVC) applySplits() {
+	if c.ct != nil && len(c.ct.Claims) > 0 {
+		if (len(c.ct.Ensures) > 0 && !inList(c.ct.Claims, "ensures")) || !c.ct.ModAll {
+			c.errorf("%s: a partially claimed function (claims ...) may not promise its callers anything it does not prove: ensures only if the class ensures is claimed, modifies all", c.fnName())
+		}
+		var keep []*Obligation
+		for _, o := range c.obls {
+			if o.Class == "vacuity" || inList(c.ct.Claims, o.Class) {
+				keep = append(keep, o)
+			}
+		}
+		c.havocs = append(c.havocs, fmt.Sprintf("PARTIAL CLAIM: only obligations of class %v are generated for this function (%d of %d); its other obligations are not discharged and not claimed", c.ct.Claims, len(keep), len(c.obls)))
+		c.obls = keep
+	}
 	if len(c.splitNames) == 0 {
 		return
 	}
